@@ -10,7 +10,13 @@
 use std::cell::RefCell;
 
 pub mod prelude {
-    pub use crate::{ParallelIterator, ParallelSlice};
+    pub use crate::{IndexedParallelIterator, IntoParallelIterator, IntoParallelRefIterator, ParallelIterator, ParallelSlice};
+}
+pub mod iter {
+    pub use crate::{IndexedParallelIterator, IntoParallelIterator, IntoParallelRefIterator, ParallelIterator};
+}
+pub mod slice {
+    pub use crate::ParallelSlice;
 }
 
 pub mod sim {
@@ -117,6 +123,77 @@ pub trait ParallelIterator: Sized {
         drive(&self, &identity, &op)
     }
 
+    /// like rayon's `try_fold`: one fallible accumulator per leaf; a failure ends that leaf's fold
+    fn try_fold<T, R, ID, F>(self, identity: ID, fold_op: F) -> TryFold<Self, R, ID, F>
+    where
+        F: Fn(T, Self::Item) -> R + Sync + Send,
+        ID: Fn() -> T + Sync + Send,
+        R: Try<Output = T> + Send,
+    {
+        TryFold { base: self, identity, fold_op, _r: std::marker::PhantomData }
+    }
+
+    /// like rayon's `try_reduce`: combine the successes with `op` in tree order; the first failure met in the
+    /// (tape-chosen) execution order is the result
+    fn try_reduce<T, OP, ID>(self, identity: ID, op: OP) -> Self::Item
+    where
+        OP: Fn(T, T) -> Self::Item + Sync + Send,
+        ID: Fn() -> T + Sync + Send,
+        Self::Item: Try<Output = T>,
+    {
+        let failed: RefCell<Option<Self::Item>> = RefCell::new(None);
+        let keep = |r: Self::Item| -> Option<T> {
+            match r.branch() {
+                Ok(t) => Some(t),
+                Err(e) => {
+                    let mut f = failed.borrow_mut();
+                    if f.is_none() {
+                        *f = Some(e);
+                    }
+                    None
+                }
+            }
+        };
+        let lifted = LiftTry { base: self, keep: &keep };
+        let out = drive(&lifted, &|| Some(identity()), &|a: Option<T>, b: Option<T>| match (a, b) {
+            (Some(a), Some(b)) => keep(op(a, b)),
+            _ => None,
+        });
+        let first_failure = failed.borrow_mut().take();
+        match (first_failure, out) {
+            (Some(e), _) => e,
+            (None, Some(t)) => <Self::Item as Try>::from_output(t),
+            (None, None) => unreachable!("simrayon: a failed try_reduce without a recorded failure"),
+        }
+    }
+
+    fn enumerate(self) -> Enumerate<Self> {
+        Enumerate { base: self }
+    }
+    fn with_min_len(self, _min: usize) -> Self {
+        self
+    }
+    fn with_max_len(self, _max: usize) -> Self {
+        self
+    }
+    fn count(self) -> usize {
+        let leaves = plan_tree(self.base_len());
+        leaves.leaf_order().into_iter().map(|(lo, hi)| self.leaf(lo, hi).len()).sum()
+    }
+    /// order-preserving collection (leaves run in the tape-chosen order, results are put back in index order)
+    fn collect<C>(self) -> C
+    where
+        C: std::iter::FromIterator<Self::Item>,
+    {
+        let leaves = plan_tree(self.base_len());
+        let mut parts: Vec<(usize, Vec<Self::Item>)> = Vec::new();
+        for (lo, hi) in leaves.leaf_order() {
+            parts.push((lo, self.leaf(lo, hi)));
+        }
+        parts.sort_by_key(|p| p.0);
+        parts.into_iter().flat_map(|p| p.1).collect()
+    }
+
     fn for_each<OP>(self, op: OP)
     where
         OP: Fn(Self::Item) + Sync + Send,
@@ -143,9 +220,197 @@ pub trait ParallelIterator: Sized {
     }
 }
 
+/// The part of rayon's private `Try` that `try_fold` / `try_reduce` need (Option and Result).
+pub trait Try: Sized {
+    type Output;
+    fn from_output(o: Self::Output) -> Self;
+    /// Ok(success value) or Err(self, still holding the failure)
+    fn branch(self) -> Result<Self::Output, Self>;
+}
+impl<T> Try for Option<T> {
+    type Output = T;
+    fn from_output(o: T) -> Self {
+        Some(o)
+    }
+    fn branch(self) -> Result<T, Self> {
+        match self {
+            Some(t) => Ok(t),
+            None => Err(None),
+        }
+    }
+}
+impl<T, E> Try for Result<T, E> {
+    type Output = T;
+    fn from_output(o: T) -> Self {
+        Ok(o)
+    }
+    fn branch(self) -> Result<T, Self> {
+        match self {
+            Ok(t) => Ok(t),
+            Err(e) => Err(Err(e)),
+        }
+    }
+}
+
+pub struct TryFold<B, R, ID, F> {
+    base: B,
+    identity: ID,
+    fold_op: F,
+    _r: std::marker::PhantomData<fn() -> R>,
+}
+impl<B, T, R, ID, F> ParallelIterator for TryFold<B, R, ID, F>
+where
+    B: ParallelIterator,
+    F: Fn(T, B::Item) -> R + Sync + Send,
+    ID: Fn() -> T + Sync + Send,
+    R: Try<Output = T> + Send,
+{
+    type Item = R;
+    fn base_len(&self) -> usize {
+        self.base.base_len()
+    }
+    fn leaf(&self, lo: usize, hi: usize) -> Vec<R> {
+        let mut acc = (self.identity)();
+        for item in self.base.leaf(lo, hi) {
+            match (self.fold_op)(acc, item).branch() {
+                Ok(t) => acc = t,
+                Err(e) => return vec![e],
+            }
+        }
+        vec![R::from_output(acc)]
+    }
+}
+
+struct LiftTry<'k, B: ParallelIterator, T> {
+    base: B,
+    keep: &'k dyn Fn(B::Item) -> Option<T>,
+}
+impl<'k, B: ParallelIterator, T> ParallelIterator for LiftTry<'k, B, T> {
+    type Item = Option<T>;
+    fn base_len(&self) -> usize {
+        self.base.base_len()
+    }
+    fn leaf(&self, lo: usize, hi: usize) -> Vec<Option<T>> {
+        self.base.leaf(lo, hi).into_iter().map(|r| (self.keep)(r)).collect()
+    }
+}
+
+pub struct Enumerate<B> {
+    base: B,
+}
+impl<B: ParallelIterator> ParallelIterator for Enumerate<B> {
+    type Item = (usize, B::Item);
+    fn base_len(&self) -> usize {
+        self.base.base_len()
+    }
+    fn leaf(&self, lo: usize, hi: usize) -> Vec<(usize, B::Item)> {
+        // valid for the indexed producers of this stub (one item per base index)
+        self.base.leaf(lo, hi).into_iter().enumerate().map(|(i, x)| (lo + i, x)).collect()
+    }
+}
+
+/// marker so that `use rayon::prelude::*` keeps compiling; every producer of the stub is indexed
+pub trait IndexedParallelIterator: ParallelIterator {}
+impl<P: ParallelIterator> IndexedParallelIterator for P {}
+
+pub trait IntoParallelIterator {
+    type Iter: ParallelIterator<Item = Self::Item>;
+    type Item;
+    fn into_par_iter(self) -> Self::Iter;
+}
+pub struct RangeIter {
+    lo: usize,
+    hi: usize,
+}
+impl ParallelIterator for RangeIter {
+    type Item = usize;
+    fn base_len(&self) -> usize {
+        self.hi.saturating_sub(self.lo)
+    }
+    fn leaf(&self, lo: usize, hi: usize) -> Vec<usize> {
+        (self.lo + lo..self.lo + hi).collect()
+    }
+}
+impl IntoParallelIterator for std::ops::Range<usize> {
+    type Iter = RangeIter;
+    type Item = usize;
+    fn into_par_iter(self) -> RangeIter {
+        RangeIter { lo: self.start, hi: self.end }
+    }
+}
+pub struct VecIter<T> {
+    items: RefCell<Vec<Option<T>>>,
+}
+impl<T: Send> ParallelIterator for VecIter<T> {
+    type Item = T;
+    fn base_len(&self) -> usize {
+        self.items.borrow().len()
+    }
+    fn leaf(&self, lo: usize, hi: usize) -> Vec<T> {
+        let mut v = self.items.borrow_mut();
+        (lo..hi).map(|i| v[i].take().expect("simrayon: item consumed twice")).collect()
+    }
+}
+impl<T: Send> IntoParallelIterator for Vec<T> {
+    type Iter = VecIter<T>;
+    type Item = T;
+    fn into_par_iter(self) -> VecIter<T> {
+        VecIter { items: RefCell::new(self.into_iter().map(Some).collect()) }
+    }
+}
+pub struct SliceIter<'a, T> {
+    slice: &'a [T],
+}
+impl<'a, T: Sync + 'a> ParallelIterator for SliceIter<'a, T> {
+    type Item = &'a T;
+    fn base_len(&self) -> usize {
+        self.slice.len()
+    }
+    fn leaf(&self, lo: usize, hi: usize) -> Vec<&'a T> {
+        self.slice[lo..hi].iter().collect()
+    }
+}
+pub trait IntoParallelRefIterator<'a> {
+    type Iter: ParallelIterator<Item = Self::Item>;
+    type Item: 'a;
+    fn par_iter(&'a self) -> Self::Iter;
+}
+impl<'a, T: Sync + 'a> IntoParallelRefIterator<'a> for [T] {
+    type Iter = SliceIter<'a, T>;
+    type Item = &'a T;
+    fn par_iter(&'a self) -> SliceIter<'a, T> {
+        SliceIter { slice: self }
+    }
+}
+impl<'a, T: Sync + 'a> IntoParallelRefIterator<'a> for Vec<T> {
+    type Iter = SliceIter<'a, T>;
+    type Item = &'a T;
+    fn par_iter(&'a self) -> SliceIter<'a, T> {
+        SliceIter { slice: self }
+    }
+}
+
 pub struct Chunks<'a, T> {
     slice: &'a [T],
     size: usize,
+}
+pub struct ChunksExact<'a, T> {
+    slice: &'a [T],
+    size: usize,
+}
+impl<'a, T: Sync + 'a> ChunksExact<'a, T> {
+    pub fn remainder(&self) -> &'a [T] {
+        &self.slice[self.slice.len() - self.slice.len() % self.size..]
+    }
+}
+impl<'a, T: Sync + 'a> ParallelIterator for ChunksExact<'a, T> {
+    type Item = &'a [T];
+    fn base_len(&self) -> usize {
+        self.slice.len() / self.size
+    }
+    fn leaf(&self, lo: usize, hi: usize) -> Vec<&'a [T]> {
+        (lo..hi).map(|i| &self.slice[i * self.size..(i + 1) * self.size]).collect()
+    }
 }
 
 pub trait ParallelSlice<T: Sync> {
@@ -153,6 +418,10 @@ pub trait ParallelSlice<T: Sync> {
     fn par_chunks(&self, chunk_size: usize) -> Chunks<'_, T> {
         assert!(chunk_size != 0, "chunk_size must not be zero");
         Chunks { slice: self.as_parallel_slice(), size: chunk_size }
+    }
+    fn par_chunks_exact(&self, chunk_size: usize) -> ChunksExact<'_, T> {
+        assert!(chunk_size != 0, "chunk_size must not be zero");
+        ChunksExact { slice: self.as_parallel_slice(), size: chunk_size }
     }
 }
 
